@@ -358,7 +358,7 @@ package table
 // behind the last restart point, the answer is the end of the entries, not the word that follows the restart array
 // (the restart count; F17).
 //@ func (*block).seek
-//@   props C13 C02
+//@   props C13 C02 C18
 //@   safety off
 //@   sortedinput the keys at the restart points of a block increase, as the writer emits them (a block that passed its checksum is such a block)
 //@   requires 0 <= rstart && rstart <= rlimit && rlimit <= b.restartsLen && 0 <= b.restartsOffset && b.restartsOffset + 4*b.restartsLen <= len(b.data) && len(b.data) <= 1099511627776
@@ -387,6 +387,32 @@ package table
 //@     assert [C02,C13:a-walk-restarted-before-the-first-entry-starts-at-the-start-of-the-range] i.restartIndex == i.riStart && i.offset == i.offsetStart
 //@   ensures [C02,C13:a-step-forward-leaves-the-iterator-facing-forward] result ==> (i.dir == dirForward && i.err == nil)
 //@   ensures [C02,C13:no-entry-and-no-error-is-the-end] (!result && i.err == nil) ==> i.dir == dirEOI
+// C02 / C13: a Seek searches the restart points of the iterator's own range for the caller's key, starts the walk at
+// the offset found (never before the start of the range) and stops at the first entry that is not before the key.
+//@ func (*blockIter).Seek
+//@   props C13 C02 C18
+//@   safety off
+//@   assumepre
+//@   ensures [C02,C13,C18:a-released-iterator-reports-that-it-was-released] (old(i.err) == nil && old(i.dir) == dirReleased) ==> (!result && i.err == ErrIterReleased)
+//@   at before call (*block).seek#1
+//@     assert [C02,C13:the-search-covers-the-iterators-range-and-the-callers-key] arg1 == i.riStart && arg2 == i.riLimit && sameslice(arg3, key)
+//@   at before stmt if i.dir == dirSOI || i.dir == dirEOI
+//@     assert [C02,C13:the-walk-starts-at-the-offset-found-within-the-range] i.restartIndex == ri && i.offset >= i.offsetStart && i.offset >= offset && (i.offset == offset || i.offset == i.offsetStart)
+//@   ensures [C02,C13:seek-lands-at-or-after-the-target] result ==> tcmp(bytes(i.key), bytes(key)) >= 0
+//@ func (*blockIter).First
+//@   props C13 C02 C18
+//@   safety off
+//@   assumepre
+//@   ensures [C02,C13,C18:a-released-iterator-reports-that-it-was-released] (old(i.err) == nil && old(i.dir) == dirReleased) ==> (!result && i.err == ErrIterReleased)
+//@   at before call (*blockIter).Next#1
+//@     assert [C02,C13:first-walks-from-before-the-first-entry] i.dir == dirSOI
+//@ func (*blockIter).Last
+//@   props C13 C02 C18
+//@   safety off
+//@   assumepre
+//@   ensures [C02,C13,C18:a-released-iterator-reports-that-it-was-released] (old(i.err) == nil && old(i.dir) == dirReleased) ==> (!result && i.err == ErrIterReleased)
+//@   at before call (*blockIter).Prev#1
+//@     assert [C02,C13:last-walks-back-from-behind-the-last-entry] i.dir == dirEOI
 //@ func (*blockIter).reset
 //@   props C13 C02
 //@   safety off
